@@ -143,6 +143,31 @@ func (p *Program) mutations(fn *ssa.Function, root ssa.Value, busy map[string]bo
 			out = append(out, Mutation{m.Instr, Short(FuncKey(g)) + ":" + im.What})
 		}
 	}
+	// interface method calls on the object (or on something reached from it): the module's implementations of
+	// that method, judged by what they do to their receiver (builders that set fields and return themselves)
+	for _, b := range fn.Blocks {
+		for _, in := range b.Instrs {
+			ci, ok := in.(ssa.CallInstruction)
+			if !ok || !ci.Common().IsInvoke() || !PointsInto(ci.Common().Value, root) {
+				continue
+			}
+			for _, g := range p.CalleesOf(ci) {
+				if g == nil || len(g.Blocks) == 0 || len(g.Params) == 0 || !strings.HasPrefix(FuncKey(g), ModPrefix) {
+					continue
+				}
+				key := FuncKey(g) + "#0"
+				if busy[key] {
+					continue
+				}
+				busy[key] = true
+				inner := p.mutations(g, g.Params[0], busy)
+				delete(busy, key)
+				for _, im := range inner {
+					out = append(out, Mutation{in, Short(FuncKey(g)) + ":" + im.What})
+				}
+			}
+		}
+	}
 	return out
 }
 
